@@ -23,7 +23,7 @@ use crate::crypto::merkle::{DoubleMerkleProof, DoubleMerkleTree, SliceRoot};
 use crate::crypto::{Hash, hash};
 use crate::disseminator::rotor::{SamplingStrategy, StakeWeightedSampler};
 use crate::network::{Network, RepairRequesterNetwork, RepairResponderNetwork};
-use crate::shredder::{Shred, ShredIndex, ValidatedShred};
+use crate::shredder::{RegularShredder, Shred, ShredIndex, Shredder, ValidatedShred};
 use crate::types::SliceIndex;
 use crate::{BlockId, ValidatorIndex};
 
@@ -449,6 +449,12 @@ where
                     warn!("repair response (Shred) with last flag not matching proved last slice");
                     return;
                 }
+                // the data/coding type is not authenticated, the responder may have flipped it;
+                // such a shred would be dropped by the blockstore: keep waiting for the real one
+                if !RegularShredder::has_expected_type(&shred) {
+                    warn!("repair response (Shred) with type not matching shred index");
+                    return;
+                }
                 // have no commitment cache for repair, always verify signature (i.e. `None` here)
                 let Ok(validated) = ValidatedShred::try_new(shred, None, leader_pk) else {
                     warn!("repair response (Shred) with invalid Merkle proof or signature");
@@ -595,7 +601,7 @@ mod tests {
     use crate::crypto::signature::SecretKey;
     use crate::network::simulated::SimulatedNetworkCore;
     use crate::network::{SimulatedNetwork, localhost_ip_sockaddr};
-    use crate::shredder::TOTAL_SHREDS;
+    use crate::shredder::{DATA_SHREDS, TOTAL_SHREDS};
     use crate::test_utils::{create_random_shredded_block, generate_validators, random_block_id};
     use crate::types::Slot;
     use crate::types::slice_index::MAX_SLICES_PER_BLOCK;
@@ -773,6 +779,92 @@ mod tests {
 
         // block should be repaired shortly; poll until it lands rather than
         // relying on a fixed sleep, which is racy under CI load
+        let repaired = tokio::time::timeout(Duration::from_secs(10), async {
+            while ctx
+                .blockstore
+                .read()
+                .await
+                .get_block(&block_to_repair)
+                .is_none()
+            {
+                tokio::time::sleep(Duration::from_millis(5)).await;
+            }
+        })
+        .await;
+        assert!(repaired.is_ok(), "block was not repaired within timeout");
+    }
+
+    /// A responder flips the (unauthenticated) data/coding type of the shreds it serves.
+    ///
+    /// Such responses must not cancel the requests: they are retried and the block is repaired.
+    #[tokio::test]
+    async fn shred_of_wrong_type_does_not_cancel_request() {
+        let ctx = setup().await;
+        let slot = Slot::genesis().next();
+        let (block_hash, merkle_tree, shreds) =
+            create_random_shredded_block(slot, 1, &ctx.leader_sk);
+        let block_to_repair = (slot, block_hash);
+        let slice = SliceIndex::first();
+        let port1 = localhost_ip_sockaddr(2);
+        let flip_type = |shred: &Shred| -> Shred {
+            let mut bytes = wincode::serialize(shred).unwrap();
+            // the enum tag of `ShredPayloadType` comes first (0 = data, 1 = coding)
+            bytes[0] ^= 1;
+            wincode::deserialize(&bytes).unwrap()
+        };
+
+        ctx.repair_tx.send(block_to_repair.clone()).await.unwrap();
+        let msg = ctx.v0_request_net.receive().await.unwrap();
+        let req_type = RepairRequestType::LastSliceRoot(block_to_repair.clone());
+        assert_eq!(msg.req_type, req_type);
+        let root = shreds[0][0].slice_root().clone();
+        let response = RepairResponse::LastSliceRoot(
+            req_type,
+            slice,
+            root.clone(),
+            merkle_tree.create_proof(0),
+        );
+        ctx.v0_request_net.send(&response, port1).await.unwrap();
+        let msg = ctx.v0_request_net.receive().await.unwrap();
+        let req_type = RepairRequestType::SliceRoot(block_to_repair.clone(), slice);
+        assert_eq!(msg.req_type, req_type);
+        let response = RepairResponse::SliceRoot(req_type, root, merkle_tree.create_proof(0));
+        ctx.v0_request_net.send(&response, port1).await.unwrap();
+        for _ in 0..TOTAL_SHREDS {
+            let msg = ctx.v0_request_net.receive().await.unwrap();
+            assert!(matches!(msg.req_type, RepairRequestType::Shred(..)));
+        }
+
+        // one shred short of a decodable slice is answered correctly,
+        // all other requests with the genuine shred relabelled as the other type
+        let genuine = DATA_SHREDS - 1;
+        for (index, shred) in shreds[0].iter().enumerate() {
+            let shred_index = ShredIndex::new(index).unwrap();
+            let req_type = RepairRequestType::Shred(block_to_repair.clone(), slice, shred_index);
+            let shred = if index < genuine {
+                shred.as_shred().clone()
+            } else {
+                flip_type(shred.as_shred())
+            };
+            let response = RepairResponse::Shred(req_type, shred);
+            ctx.v0_request_net.send(&response, port1).await.unwrap();
+        }
+
+        // the requests answered with a shred of the wrong type time out and are sent again;
+        // one correct answer completes the block
+        let retried = loop {
+            let msg = ctx.v0_request_net.receive().await.unwrap();
+            if let RepairRequestType::Shred(_, _, index) = msg.req_type {
+                assert!(
+                    *index >= genuine,
+                    "a correctly answered request was retried"
+                );
+                break index;
+            }
+        };
+        let req_type = RepairRequestType::Shred(block_to_repair.clone(), slice, retried);
+        let response = RepairResponse::Shred(req_type, shreds[0][*retried].as_shred().clone());
+        ctx.v0_request_net.send(&response, port1).await.unwrap();
         let repaired = tokio::time::timeout(Duration::from_secs(10), async {
             while ctx
                 .blockstore
